@@ -400,9 +400,9 @@ impl AlgoContext {
     pub fn verif_population(&self) -> Vec<(usize, f64, u8, Vec<f64>)> {
         self.individuals
             .iter()
-            .map(|(key, ctx)| {
+            .map(|(_, ctx)| {
                 let (kind, vals) = ctx.verif_state();
-                (ctx.id, key.obj_func_val.get(), kind, vals)
+                (ctx.id, self.summary_obj_func_val(&ctx.state).get(), kind, vals)
             })
             .collect()
     }
